@@ -489,6 +489,7 @@ func (m *Mux) serveHTTP(w http.ResponseWriter, r *http.Request) error {
 	if cz := m.opts.compressors[contentEncoding]; cz != nil {
 		z, err := cz.Decompress(r.Body)
 		if err != nil {
+			m.statsEnd(ctx, beginTime, err)
 			return err
 		}
 		body = z
@@ -502,6 +503,7 @@ func (m *Mux) serveHTTP(w http.ResponseWriter, r *http.Request) error {
 		w.Header().Set("Content-Encoding", acceptEncoding)
 		z, err := cz.Compress(w)
 		if err != nil {
+			m.statsEnd(ctx, beginTime, err)
 			return err
 		}
 		defer z.Close()
@@ -552,6 +554,19 @@ func (m *Mux) serveHTTP(w http.ResponseWriter, r *http.Request) error {
 		m.encError(w, r, herr)
 	}
 	return nil
+}
+
+// statsEnd reports the end of an RPC that fails after stats.Begin but before
+// its handler runs.
+func (m *Mux) statsEnd(ctx context.Context, beginTime time.Time, err error) {
+	if sh := m.opts.statsHandler; sh != nil {
+		sh.HandleRPC(ctx, &stats.End{
+			Client:    false,
+			BeginTime: beginTime,
+			EndTime:   time.Now(),
+			Error:     err,
+		})
+	}
 }
 
 func streamHTTPFromCtx(ctx context.Context) (*streamHTTP, error) {
